@@ -294,3 +294,5 @@ _quick("C10", "C10_demote", "a leader with a holder and a queued request (a clie
 _quick("C08", "C08_bufcut", "as C08_cut with 3 records and the log reader's buffer (Config.AofFileBufferSize) set to 100 bytes (rounded down to 64 by NewAofFile), so that every record straddles the end of the read buffer (with the default 4096 every 64th record does); cut at every byte", ["-witness", "5"])
 
 _quick("C13", "C13_calllist", "CALL LIST_LOCK / LIST_LOCKED / LIST_WAIT through the real handlers with a protobuf request whose db_id is 0..3 or any 32-bit value from 200 up and whose lock_key has 0..16 bytes: a result, never a crash; SUCCED only for the database that exists", ["-witness", "20"])
+
+_quick("C18", "C18_adminwills", "a binary connection switches to the text protocol with ADMIN, registers 0..2 wills in text form (real TextServerProtocol.Process over a scripted stream) and the stream ends; after BinaryServerProtocol.Close each will has been executed exactly once, in order", ["-witness", "3"])
